@@ -30,7 +30,7 @@ from . import c01
 
 ID = 'C05'
 LEVEL = 'exploration'
-BUDGET_S = {'quick': 150, 'thorough': 1500}
+BUDGET_S = {'quick': 300, 'thorough': 1500}
 RULE = ('one family of formula texts per example (seed + whitespace / separator variants + token- and character-level '
         'mutants), plus the arity sweep and token soups; a case = one text translated through Parser (entry-point cell) and, '
         'when accepted, evaluated; non-trivial = the text is outside the grammar but has a proper prefix (of >= 2 tokens) that '
@@ -739,7 +739,7 @@ NUMS = ['0', '1', '2', '3', '7', '10', '12', '2.5', '0.25', '100', '1e2', '3e-1'
 CELLS = ['A1', 'A2', 'A3', 'B1', 'B2', 'D1', 'D2', 'E1', 'E4', '$A$1', 'A$2', '$D3']
 AREAS = ['A1:A6', 'B1:B6', 'D1:D6', 'A1:B3', 'A1:D6', 'D1:E6', 'A:A', 'D:D', '$A$1:$A$6', 'A1:A3']
 NUMAREAS = ['A1:A6', 'D1:D6', 'A1:A3', 'D1:E6', 'E1:E6', '$A$1:$A$6']
-WORDS = ['pear', 'fig', 'a', 'x y', 'kiwi', '', 'p*', 'f?g', '>3', '<>fig', '1', 'it~*s']
+WORDS = ['pear', 'fig', 'a', 'x y', 'kiwi', '', 'p*', 'f?g', '>3', '<>fig', '1', 'it~*s', 'a_xlfn.b', '_xlws.ab', '=1+', "o'k", 'A1', 'SUM(']
 DATES = ['C1', 'C2', 'C3']
 
 
@@ -879,10 +879,13 @@ def mutate_tokens(toks, rnd):
     return toks
 
 
+JUNK_STRINGS = ['_xlfn.', '_xlws.', '_xlfn._xlws.', '_xlpm.', '@', '[1]', '{1,2}', '#REF!', '#N/A', 'E+', "''", '..', '$$', 'R1C1', '0x', '1E5', 'TRUE', '--', '=', '==', '\r', '\u00a0', ' \u2009', '\u200b']
+
+
 def mutate_chars(text, rnd):
     body = text[1:]
     for _ in range(rnd.choice([1, 1, 2])):
-        how = rnd.choice(['del', 'ins', 'dup', 'quote', 'rep'])
+        how = rnd.choice(['del', 'ins', 'dup', 'quote', 'rep', 'insstr'])
         n = len(body)
         if how == 'del' and n > 1:
             i = rnd.randrange(n)
@@ -896,6 +899,10 @@ def mutate_chars(text, rnd):
         elif how == 'quote':
             i = rnd.randrange(n + 1)
             body = body[:i] + rnd.choice(['"', '""']) + body[i:]
+        elif how == 'insstr':
+            # character sequences that spreadsheet files carry around formulas (compatibility prefixes, array braces, error names, ...)
+            i = rnd.randrange(n + 1)
+            body = body[:i] + rnd.choice(JUNK_STRINGS) + body[i:]
         elif how == 'rep' and n:
             i = rnd.randrange(n)
             body = body[:i] + rnd.choice(CHAR_ALPHABET) + body[i + 1:]
@@ -971,7 +978,7 @@ def soup_items(rnd, n=24):
 
 BAD_SNIPPETS = ['1%2', '1 2', '1+', '+', '1+*2', '(1', '1)', '"a""b"', 'SUM(1,2', 'SUM(1,,2)', 'IF(1,2,3,4)', 'ROUND(1)', 'A1:B', 'A1 B1', '1=', '=1', 'SUM()',
                 'LEFT("a",1,2)', 'TRUE ()', '5%5%', '1..2', 'A1:B2:C3', 'SUM(1 2)', '(1)(2)', '1<>', '<>1', '"a"&', 'foo(1)', 'x', '#REF!', '1e', 'A', '$',
-                'SUM(A1:A3', 'VLOOKUP(1,A1,1)', 'MATCH()', 'TODAY(1)', 'DATE(1,2)', 'IFERROR(1)', 'IFS()']
+                'SUM(A1:A3', 'VLOOKUP(1,A1,1)', 'MATCH()', 'TODAY(1)', 'DATE(1,2)', 'IFERROR(1)', 'IFS()', '1+2_xlfn.', 'SU_xlfn.M(1,2)', '_xlfn.SUM(1,2)', 'A_xlws.B1', 'SUM(1,2)_xlfn.', '{1,2}', '@A1', '1\u00a0+2', '1\u200b']
 WRAPPERS = ['{x}', '({x})', '-{x}', '1+{x}', '{x}+1', '"a"&{x}', '{x}=1', 'IFERROR({x},7)', 'IFERROR(7,{x})', 'IF(1,{x},2)', 'IF({x},1,2)', 'IF(0,1,{x})', 'IFS(1,{x})',
             'SUM(1,{x})', 'SUM({x},1)', 'MAX({x})', 'ROUND({x},1)', 'ROUND(1,{x})', 'LEFT({x},1)', 'CONCATENATE("a",{x})', 'AND({x})', 'COUNT({x})', 'COUNTIFS(A1:A3,{x})',
             'SUMIF(A1:A3,{x})', 'VLOOKUP({x},A1:B3,2)', 'INDEX(A1:B3,{x},1)', 'DATE(2020,{x},1)', 'VALUE({x})', 'TEXT({x},"0")', 'IFERROR(IFERROR({x},1),2)', 'IF(1,IF(1,{x}))']
@@ -995,11 +1002,43 @@ def run_ref_to_bad(rec):
     fails = []
     users = ['=D9+1', '=IFERROR(D9,7)', '=IFERROR(D9+1,7)', '=IF(1,D9,2)', '=IF(0,2,D9)', '=SUM(D8:D10)', '=SUM(D:D)', '=IFERROR(SUM(D8:D10),0)', '=INDEX(D8:D10,2)',
              '=VLOOKUP(1,A1:D9,4)', '=COUNTIFS(D8:D10,1)', '=IFERROR(IF(D9>1,1,2),3)', '=MAX(1,D9)', '=D9', '=-D9', '="a"&D9', '=IFERROR(7,D9)', '=IFS(1,D9)']
-    for bad in BAD_SNIPPETS:
+    # the same referencing formulas over a well-formed D9 first and last: what an earlier translation in this process saw of D9 must not
+    # decide whether the text that stands there now is consumed (the values of the last round are asserted)
+    good_last = {'=D9+1': 14, '=D9': 13, '=-D9': -13, '=MAX(1,D9)': 13, '="a"&D9': 'a13', '=IFERROR(D9,7)': 13, '=IFERROR(D9+1,7)': 14, '=IF(1,D9,2)': 13,
+                 '=SUM(D8:D10)': 13, '=INDEX(D8:D10,2)': 13, '=IFS(1,D9)': 13}
+    for bad in ['1+2'] + BAD_SNIPPETS + ['1+2+10']:
         if rec is not None and rec.out_of_time():
             break
         cells = dict(DATA['S'])
         cells['D9'] = '=' + bad
+        cells.pop('D8', None), cells.pop('D10', None)
+        if bad in ('1+2', '1+2+10'):
+            for i, u in enumerate(users):
+                cells[f'F{i + 1}'] = u
+            path = wbk.write_xlsx({'sheets': [{'title': 'S', 'cells': cells}]})
+            try:
+                for ent in [None] + [('S', 'F', str(i + 1)) for i in range(len(users))]:
+                    u = None if ent is None else users[int(ent[2]) - 1]
+                    def go():
+                        src = wbk.translate_path(path, entry=ent)
+                        ex = wbk.Tr(src, wbk.load_source(src)).executor()
+                        return [ex.get_cell(wbk.Cell('S', 'F', str(i + 1))).value for i, x in enumerate(users) if (u is None or x == u) and x in good_last]
+                    o = wbk.outcome(go)
+                    want = [good_last[x] for x in users if (u is None or x == u) and x in good_last]
+                    case = {'ref_to_bad': bad, 'user': u}
+                    if rec is not None:
+                        rec.case(case, ent is not None, ['kind:ref-to-good', 'verdict:valid'], sample={'D9': '=' + bad, 'entry formula': u})
+                    if bad == '1+2+10' and o[0] != 'timeout' and not (o[0] == 'value' and [(type(x).__name__, x) for x in o[1]] == [(type(x).__name__, x) for x in want]):
+                        fails.append({'case': case, 'expected': want, 'actual': wbk.show_outcome(o), 'relation': 'the-whole-text-of-a-referenced-cell-is-consumed',
+                                      'bucket': 'ref-to-good:' + ('whole' if ent is None else u.split('(')[0].lstrip('=')[:10]), 'extra': None})
+                        break
+            finally:
+                try:
+                    import os
+                    os.unlink(path)
+                except OSError:
+                    pass
+            continue
         if verdict('=' + bad)[0] != 'invalid':
             continue
         for i, u in enumerate(users):
@@ -1033,11 +1072,12 @@ NSHARD = 16
 
 def plan(tier):
     n = 160 if tier == 'quick' else 1500
-    specs = [{'kind': 'families', 'shard': i, 'examples': n} for i in range(NSHARD)]
+    # the small deterministic lanes go first: they must not be the ones that a loaded machine's time budget cuts off
+    specs = [{'kind': 'ref-to-bad', 'shard': 400}, {'kind': 'long', 'shard': 401}]
+    specs += [{'kind': 'wrapped', 'shard': 300 + i, 'part': i, 'parts': 6} for i in range(6)]
+    specs += [{'kind': 'families', 'shard': i, 'examples': n} for i in range(NSHARD)]
     specs += [{'kind': 'arity', 'shard': 100 + i, 'per_n': 10 if tier == 'quick' else 60} for i in range(8)]
     specs += [{'kind': 'soup', 'shard': 200 + i, 'rounds': 25 if tier == 'quick' else 400} for i in range(4)]
-    specs += [{'kind': 'wrapped', 'shard': 300 + i, 'part': i, 'parts': 6} for i in range(6)]
-    specs += [{'kind': 'ref-to-bad', 'shard': 400}, {'kind': 'long', 'shard': 401}]
     return specs
 
 
